@@ -25,16 +25,26 @@ type (
 )
 
 func (ds *dataStore) save(fileName string) (err error) {
-	// open output file
-	f, err := os.Create(fileName)
+	// write a temporary file and move it over the previous snapshot when it is
+	// complete, so that a save that is interrupted leaves the previous snapshot
+	tempName := fileName + ".tmp"
+	f, err := os.Create(tempName)
 	if err != nil {
 		return
 	}
 
 	// close f on exit and check for its returned error
 	defer func() {
+		if err == nil {
+			err = f.Sync()
+		}
 		if err := f.Close(); err != nil {
 			panic(err)
+		}
+		if err == nil {
+			err = os.Rename(tempName, fileName)
+		} else {
+			os.Remove(tempName)
 		}
 	}()
 
